@@ -6,7 +6,7 @@ use debruijn::compression::*;
 use debruijn::graph::BaseGraph;
 use debruijn::*;
 use std::collections::BTreeMap;
-use vcommon::families::{catalogue, Space};
+use vcommon::families::{catalogue, Seg, Space};
 use vcommon::refmodel::*;
 use vcommon::report::Report;
 use vcommon::seq::*;
@@ -22,12 +22,12 @@ pub fn plan(quick: bool) -> Vec<Part> {
     let (l5, p5, t5) = if quick { (8, 5, 7) } else { (11, 6, 9) };
     let (l6, p6) = if quick { (8, 0) } else { (11, 6) };
     v.push(Part::new("C01", "R1+RT", 4, Space::singles(4, l4).plus(Space::thresholds(4, t4))).dim("sub", &[if quick { 5 } else { 8 }]));
-    v.push(Part::new("C01", "R2", 4, Space::pairs(4, p4)).dim("sub", &[0]));
+    v.push(Part::new("C01", "R2", 4, if quick { Space::pairs(4, p4) } else { Space::pairs(4, 5).plus(Space { segs: vec![Seg::Pair(6, 4), Seg::Pair(6, 5)] }) }).dim("sub", &[0]));
     v.push(Part::new("C01", "R1+RT", 5, Space::singles(5, l5).plus(Space::thresholds(5, t5))).dim("sub", &[if quick { 4 } else { 7 }]));
-    v.push(Part::new("C01", "R2", 5, Space::pairs(5, p5)).dim("sub", &[0]));
+    v.push(Part::new("C01", "R2", 5, if quick { Space::pairs(5, p5) } else { Space { segs: vec![Seg::Pair(5, 5), Seg::Pair(6, 5)] } }).dim("sub", &[0]));
     v.push(Part::new("C01", "R1", 6, Space::singles(6, l6)).dim("sub", &[if quick { 3 } else { 6 }]));
     if p6 > 0 {
-        v.push(Part::new("C01", "R2", 6, Space::pairs(6, p6)).dim("sub", &[0]));
+        v.push(Part::new("C01", "R2", 6, Space { segs: vec![Seg::Pair(6, 6)] }).strands(&[false]).dim("sub", &[0]));
     }
     if !quick {
         v.push(Part::new("C01", "R3", 4, Space::triples(4, 4)).dim("sub", &[0]));
